@@ -12,7 +12,7 @@ EXTENDS SmtpServer, Json
 Trace == ndJsonDeserialize("trace.ndjson")
 
 TraceAlphabet == {"greet", "mail", "rcpt", "data", "bdat", "simple", "bad", "quit", "long",
-                  "panic", "auth", "starttls", "cut"}
+                  "panic", "auth", "starttls", "cut", "mid"}
 
 VARIABLE l     \* index of the next event to consume
 
@@ -46,11 +46,17 @@ Proj(s) == [helo |-> s.helo, session |-> s.sess # 0, from |-> s.from, rcpts |-> 
             bdat |-> s.bdat # "none", binarymime |-> s.binarymime, didAuth |-> s.didAuth,
             errCount |-> s.errCount, tls |-> s.tls]
 
+BdatSizedAny(n) == BdatSized(n)
+
 TraceStep ==
   /\ l <= Len(Trace)
   /\ Trace[l].ev = "step"
   /\ l' = l + 1
-  /\ Next
+  \* a BDAT step is taken with the recorded size (any size, not only the
+  \* model-checking constants)
+  /\ IF Trace[l].cmd.c = "BDAT" /\ Trace[l].cmd.a \in {"", "3args", "badlast"}
+     THEN BdatSizedAny(Trace[l].cmd.n)
+     ELSE Next
   /\ last'.cmd = Trace[l].cmd
   /\ last'.replies = Trace[l].replies
   /\ LoopCbs(last'.cbs) = LoopCbs(Trace[l].cbs)
